@@ -97,8 +97,8 @@ type entry struct {
 
 // ---- building blocks ----
 
-func subS1() Sub  { return Sub{Kind: "s1", Cov: []int{gA, gM}, Delta: 5} }
-func subS2() Sub  { return Sub{Kind: "s2", Map: [][2]int{{gA, gX}, {gM, gA}, {gL, gM}}} }
+func subS1() Sub { return Sub{Kind: "s1", Cov: []int{gA, gM}, Delta: 5} }
+func subS2() Sub { return Sub{Kind: "s2", Map: [][2]int{{gA, gX}, {gM, gA}, {gL, gM}}} }
 func subMul() Sub {
 	return Sub{Kind: "mul", KVs: []KV{{gA, []int{gA, gM, gA}}, {gM, []int{gX}}, {gL, []int{gM, gM}}}}
 }
